@@ -20,7 +20,7 @@ func init() {
 			"(P07-renumber) after the merge every block is renumbered with the running line count, before both returns; (P07-errmerge / P07-merge-order) every mapParse call's errors reach the merged error list, carried text is parsed before the batch's own results are appended; (P07-carry) head and tail texts are slices of the batch text and the whole remainder is carried when it produced no block; " +
 			"(P07-engine-select) both engines share one ParseOne and the parallel engine is only built with a worker count proven >= 1. " +
 			"Not covered: that head/tail carrying reconstructs exactly the serial block sequence for every chunk alignment (byte arithmetic).",
-		rules:   []ruleFn{ruleP07IndexOrder, ruleP07HB, ruleP07NoShare, ruleP07Renumber, ruleP07ErrMerge, ruleP07MergeOrderAll, ruleP07Carry, ruleP07Head, ruleP07SliceGuard, ruleP07Chunks, ruleP07EngineSelect},
+		rules:   []ruleFn{ruleP07IndexOrder, ruleP07HB, ruleP07NoShare, ruleP07Renumber, ruleP07ErrMerge, ruleP07MergeOrderAll, ruleP07Carry, ruleP07Head, ruleP07Tail, ruleP07SliceGuard, ruleP07Chunks, ruleP07EngineSelect},
 		trusted: []string{"Go memory model: channel send/receive and WaitGroup establish happens-before"},
 	})
 }
